@@ -520,7 +520,7 @@ def cli_sample(rep, seed, results, n):
         case = c08run.jsonable(case)
         case["argv"] = [[], ["--lst"], ["-o", "out.bin"], ["--implicit-bin"]][k % 4]
         for fmt in ("bare", "graphical"):
-            jobs.append((case, fmt, os.path.join(SCRATCH, "cli", f"{k}-{fmt}"), r))
+            jobs.append((case, fmt, os.path.join(SCRATCH, f"cli-{os.getpid()}", f"{k}-{fmt}"), r))
     outs = pmap("c08_cli", [(c, f, d) for c, f, d, _ in jobs], chunksize=1)
     nrun = 0
     for (case, fmt, d, r), o in zip(jobs, outs):
@@ -632,7 +632,7 @@ def explore(rep, br, tier, seed):
                "distinct_signatures_found": sorted(found_all), "watchdog_s": watchdog, "bounds": BOUNDS,
                "wall_total_s": round(time.time() - t0, 1)})
     rep.notes.append("C08 is partial: theorems cover the lazy-evaluation core and the guarded partial operations; 'any source text' is explored, not proved")
-    shutil.rmtree(os.path.join(SCRATCH, "cli"), ignore_errors=True)
+    shutil.rmtree(os.path.join(SCRATCH, f"cli-{os.getpid()}"), ignore_errors=True)   # per process: concurrent checks (try_mutant) must not share it
 
 
 def search_without_model(rep, tier, seed):
